@@ -156,6 +156,24 @@ Definition view_of_obj (o : obj) : argview :=
           (match o with OStr _ | OBytes _ => true | _ => false end)
           (match o with OStr s | OBytes s => length s | _ => 0%nat end).
 
+(* accept_no_mvv written against the view (hand-written mirror of the source;
+   Proofs/FormatGen.v proves the translated function equal to it for every view) *)
+Definition type_accept_v (is_bytes : bool) (t : N) (v : argview) : list acc_err :=
+  if mem t integer_conversion_types then (if av_integral v then [] else [EInteger])
+  else if mem t numeric_conversion_types then (if av_numeric v then [] else [ENumeric])
+  else if (t =? ch_a) || (t =? ch_r) then []
+  else if t =? ch_c then
+    if av_int v then
+      (if av_known v && negb ((0 <=? av_val v)%Z && (av_val v <? c_limit)%Z) then [ECRange] else [])
+    else if (is_bytes && av_bytes v) || (negb is_bytes && av_str v) then
+      (if av_known v && av_strbytes v && negb (Nat.eqb (av_len v) 1) then [ECLen] else [])
+    else [ECType]
+  else if (t =? ch_b) || (is_bytes && (t =? ch_s)) then
+    (if av_bytes v then [] else [EBytesOnly])
+  else if t =? ch_s then []
+  else if t =? ch_pct then [EPct]
+  else [EUnhandled].
+
 Definition spec_accept (is_bytes : bool) (cs : cspec) (o : obj) : list acc_err :=
   type_accept is_bytes (c_type cs) o.
 
